@@ -232,3 +232,14 @@ def calls_with_closures(f, b):
     for x in with_closures(f, b):
         for bb, t in x.calls():
             yield x, bb, t
+
+
+def only_called_from(cg, fn, roots, depth=6):
+    """every (direct/dyn, same-thread) call chain into `fn` starts in one of `roots`: fn is a private helper of those functions"""
+    if fn in roots:
+        return True
+    if depth == 0:
+        return False
+    callers = {root_fn(a) for (a, bb, k) in cg.callers.get(fn, [])}
+    callers.discard(fn)
+    return bool(callers) and all(only_called_from(cg, c, roots, depth - 1) for c in callers)
